@@ -14,6 +14,13 @@ CLAIMED = {
     },
 }
 
+CLAIMED["C01"] = {
+    "text": "Seeded search over sessions in which circuits are built, concatenated and extended in a shared pool and then evaluated (to_unitary, step-wise apply, get_wavefunction with and without initial state) by the bundled simulator and by simulators built on the real base class whose native-operation predicate is drawn per run, with peer failures injected; every answer is refined against an independent state-vector model built from each gate's own matrix. Evidence over sampled programs (<=5 qubits, <=12 ops, arity<=4), not proof; the first sentence of the property (a pure function) is exercised through the same oracle but simulation adds only program generation there.",
+    "design_ref": "DESIGN.md §3 C01",
+    "note": "Trusted: the tensordot reference model, each gate's own .matrix (taken as given, per the property's wording), numpy. Stub: the native applier of SplitSim (reference applier or operation.apply, per run). Real: Circuit, split_circuit, _lift_matrix*, GateOperation/MultiPhaseOperation.apply, BaseWavefunctionSimulator.get_wavefunction, SymbolicSimulator.",
+    "technique": "deterministic simulation: seeded session search over plug-in simulator configurations with peer-fault injection, refinement against a state-vector reference model",
+}
+
 PENDING = {pid: "applicable (DESIGN.md §3) but its check is not built yet at this commit; not claimed until it is" for pid in
            ["C01", "C04", "C05", "C11", "C13", "C14", "C15", "C17", "C20"] if pid not in CLAIMED}
 
